@@ -1,0 +1,6 @@
+//go:build !verif
+
+package verifhook
+
+// At marks a hook point. It does nothing unless built with the `verif` tag.
+func At(name string) {}
